@@ -89,6 +89,8 @@ CONFIGS = {
                  "Ops": ["set", "del", "get", "wait"], "Costs": [1], "InitMaxCost": 3, "MaxCosts": [3], "BufCap": 2},
     "sim_str": {"Keys": [1, 2, 3], "Hashes": [1, 2, 3], "ConfOf": "StrConf", "MaxOps": 9, "Ops": ["set", "del", "get", "wait"],
                 "Costs": [1, 2], "InitMaxCost": 3, "MaxCosts": [3], "BufCap": 2},
+    "sim_refuse_ttl": {"Keys": [1, 2], "Hashes": [1, 2], "Clients": [1, 2], "MaxOps": 8, "Ops": ["set", "del", "wait", "get", "gettl"],
+                       "Costs": [1], "InitMaxCost": 10, "MaxCosts": [10], "RefuseVals": [2, 3, 5], "BufCap": 2, "TTLs": [0, 1, 4], "MaxTime": 7},
     "sim_refuse": {"Keys": [1, 2], "Hashes": [1, 2], "Clients": [1, 2], "MaxOps": 8, "Ops": ["set", "del", "wait", "get", "clear"],
                    "Costs": [1], "InitMaxCost": 2, "MaxCosts": [2], "RefuseVals": [2, 3, 5], "BufCap": 2},
 }
@@ -114,7 +116,7 @@ PLAN = {
     "C06": {"mc": {"quick": ["ref4"], "thorough": ["ref5"]},
             "sim": [("sim_ref", 800, 12000, 70)]},
     "C07": {"mc": {"quick": ["ttl2"], "thorough": ["ttl3", "ref5"]},
-            "sim": [("sim_ttl", 500, 8000, 60), ("sim_ref", 400, 6000, 70)]},
+            "sim": [("sim_ttl", 400, 8000, 60), ("sim_ref", 300, 6000, 70), ("sim_refuse_ttl", 250, 3000, 60)]},
     "C08": {"mc": {"quick": ["handoff3"], "thorough": ["handoff4", "handoff5_view"]}, "live": {"quick": ["handoff3"], "thorough": ["handoff3", "live4"]},
             "sim": [("sim_handoff", 400, 6000, 60), ("sim_close", 200, 3000, 60)], "free": (2, 30), "race": True, "ring": True},
     "C09": {"mc": {"quick": ["cost4"], "thorough": ["cost5"]},
@@ -138,6 +140,12 @@ GOAL_CFG = {
               "Costs": [1, 3], "InitMaxCost": 9, "MaxCosts": [9], "MaxGets": 2},
     "g_zero": {"Keys": [1, 2], "Hashes": [1, 2], "Clients": [1], "MaxOps": 8, "Ops": ["set", "wait", "get"], "BufCap": 3,
                "Costs": [0, 2], "InitMaxCost": 2, "MaxCosts": [2], "TTLs": [0, 1], "MaxTime": 8, "MaxGets": 2},
+    "g_many": {"Keys": [1, 2, 3, 4, 5, 6, 7, 8], "Hashes": [1, 2, 3, 4, 5, 6, 7, 8], "Clients": [1], "MaxOps": 12, "Ops": ["set", "get"],
+               "BufCap": 4, "Costs": [1, 7], "InitMaxCost": 7, "MaxCosts": [7], "MaxGets": 2},
+    "g_zerocost": {"Keys": [1, 2, 3], "Hashes": [1, 2, 3], "Clients": [1], "MaxOps": 10, "Ops": ["set", "get"],
+                   "BufCap": 3, "Costs": [0, 2, 3], "InitMaxCost": 3, "MaxCosts": [3], "MaxGets": 3},
+    "g_refuse_ttl": {"Keys": [1, 2], "Hashes": [1, 2], "Clients": [1], "MaxOps": 8, "Ops": ["set", "wait", "get"], "BufCap": 3,
+                     "Costs": [1], "InitMaxCost": 10, "MaxCosts": [10], "TTLs": [0, 1, 4], "MaxTime": 6, "RefuseVals": [2, 3, 5]},
     "g_victim": {"Keys": [1, 2, 3], "Hashes": [1, 2, 3], "Clients": [1, 2], "MaxOps": 8, "Ops": ["set", "del", "get"], "BufCap": 2,
                  "Costs": [1, 2], "InitMaxCost": 2, "MaxCosts": [2], "MaxGets": 2},
     "g_write": {"Keys": [1, 2], "Hashes": [1, 2], "Clients": [1, 2], "MaxOps": 8, "Ops": ["set", "del", "wait"], "BufCap": 1,
@@ -160,19 +168,20 @@ GOALS = {
     "G_ClearWithBacklog": "g_clear", "G_ClearWhileBusy": "g_clear", "G_ClearWithPending": "g_clear1",
     "G_SameBucketRewrite": "g_ttl", "G_TTLDropped": "g_ttl", "G_SweepSkip": "g_ttl", "G_SetDuringSweepDel": "g_ttl",
     "G_WaitBlockedInSend": "g_write", "G_TwoClears": "g_clear", "G_SetDuringClear": "g_clear",
+    "G_SixVictims": "g_many", "G_ZeroCostVictim": "g_zerocost", "G_RefusedRewrite": "g_refuse_ttl",
     "G_ClearAfterGetsOnly": "g_clear1", "G_ExactFitAfterShrink": "g_fit", "G_ReAddAfterZeroSweep": "g_zero", "G_DelDuringVictims": "g_victim",
 }
 GOALS_FOR = {
     "C02": ["G_UpdateOfEvicted", "G_DroppedUpdate", "G_ClearWhileBusy", "G_DelDuringVictims", "G_SetDuringSweepDel", "G_SetDuringClear"],
-    "C03": ["G_RaiseCost", "G_TwoVictims", "G_DuplicateVictim", "G_UpdateOfEvicted", "G_ExactFitAfterShrink", "G_ReAddAfterZeroSweep"],
-    "C04": ["G_DroppedUpdate", "G_RejectWithVictims", "G_ClearWithBacklog", "G_ExpiredUnswept", "G_ClearWithPending", "G_SetDuringClear"],
+    "C03": ["G_RaiseCost", "G_TwoVictims", "G_DuplicateVictim", "G_UpdateOfEvicted", "G_ExactFitAfterShrink", "G_ReAddAfterZeroSweep", "G_SixVictims", "G_ZeroCostVictim"],
+    "C04": ["G_DroppedUpdate", "G_RejectWithVictims", "G_ClearWithBacklog", "G_ExpiredUnswept", "G_ClearWithPending", "G_SetDuringClear", "G_RefusedRewrite"],
     "C05": ["G_BlockedDel", "G_ClearWithBacklog", "G_DelDuringVictims", "G_WaitBlockedInSend"],
     "C06": ["G_LateApply1", "G_ExpiredUnswept1", "G_SameBucketRewrite1", "G_TTLDropped1", "G_ExactFitAfterShrink"],
-    "C07": ["G_ExpiredUnswept", "G_LateApply", "G_ExpiredUnswept1", "G_SameBucketRewrite1", "G_SameBucketRewrite", "G_TTLDropped1"],
+    "C07": ["G_ExpiredUnswept", "G_LateApply", "G_ExpiredUnswept1", "G_SameBucketRewrite1", "G_SameBucketRewrite", "G_TTLDropped1", "G_RefusedRewrite"],
     "C08": ["G_BlockedDel", "G_ClearWithBacklog", "G_ClearWhileBusy", "G_WaitBlockedInSend", "G_TwoClears"],
-    "C09": ["G_RejectWithVictims", "G_TwoVictims", "G_DuplicateVictim", "G_ExactFitAfterShrink"],
+    "C09": ["G_RejectWithVictims", "G_TwoVictims", "G_DuplicateVictim", "G_ExactFitAfterShrink", "G_SixVictims", "G_ZeroCostVictim"],
     "C13": ["G_RejectWithVictims", "G_BlockedDel", "G_LateApply", "G_UpdateOfEvicted", "G_DelDuringVictims", "G_SweepSkip", "G_SetDuringClear", "G_SweepSkip1", "G_DuplicateVictim", "G_ReAddAfterZeroSweep"],
-    "C14": ["G_SweepWithBuffered", "G_LateApply", "G_ExpiredUnswept", "G_SameBucketRewrite", "G_TTLDropped", "G_SweepSkip", "G_SetDuringSweepDel", "G_SweepSkip1", "G_SetDuringSweepDel1", "G_SweepWithBuffered1", "G_ReAddAfterZeroSweep"],
+    "C14": ["G_SweepWithBuffered", "G_LateApply", "G_ExpiredUnswept", "G_SameBucketRewrite", "G_TTLDropped", "G_SweepSkip", "G_SetDuringSweepDel", "G_SweepSkip1", "G_SetDuringSweepDel1", "G_SweepWithBuffered1", "G_ReAddAfterZeroSweep", "G_RefusedRewrite"],
     "C15": ["G_ClearWithBacklog", "G_ClearWhileBusy", "G_ExpiredUnswept", "G_ClearWithPending", "G_TwoClears", "G_SetDuringClear", "G_ClearAfterGetsOnly"],
     "C17": ["G_RejectWithVictims", "G_DroppedUpdate", "G_UpdateOfEvicted", "G_ClearWhileBusy", "G_ClearWithPending", "G_SetDuringClear", "G_DuplicateVictim", "G_TwoVictims", "G_ExactFitAfterShrink"],
 }
